@@ -4,7 +4,7 @@ set -u
 cd /verif
 . /verif/lib/env.sh
 rc=0
-for id in C01 C12 C14 C17 C18 C19; do
+for id in C01 C12 C14 C16 C17 C18 C19; do
   /verif/lib/build.sh $id >/dev/null || rc=1
 done
 exit $rc
